@@ -60,6 +60,10 @@ func VerifyFunction(p *Program, spec *Spec, fn *ssa.Function, con *Contract) (re
 	for _, g := range con.Ghosts {
 		x.args[g.Name] = Sc{s.declare("ghost:"+g.Name, g.Sort), g.Sort}
 	}
+	for _, gv := range con.GhostVars {
+		e0 := &Env{s: s, vars: map[string]Val{}, typs: map[string]types.Type{}, bound: map[string]bool{}, cur: st, old: st, where: fn.String() + " ghostvar"}
+		st.ghost[gv.Name] = Sc{e0.term(gv.Init), gv.Sort}
+	}
 	x.entry = st // requires are evaluated in the entry state itself
 	env := x.topEnv(st, fn.String()+" requires")
 	for _, r := range con.Requires {
